@@ -62,18 +62,37 @@ Proof. apply built_lists. Qed.
 Lemma c11_walk_batches cat cr bs : bl_batches (walk cat ST cr bs) = flat_map (part ST cr) bs.
 Proof. apply walk_batches. Qed.
 
-Lemma c11_output_lists cat f gc gd : input_wf ST f = true -> segment_gen cat ST f = GOk gc gd ->
+Lemma c11_output_lists cat f gc gd : input_wf ST f = true -> segment_cat cat ST f = GOk gc gd ->
   g_returns gc = filter (is_ret cat) (sf_batches (g_file gc)) /\ g_nocs gc = filter (is_noc cat) (sf_batches (g_file gc)) /\
   g_returns gd = filter (is_ret cat) (sf_batches (g_file gd)) /\ g_nocs gd = filter (is_noc cat) (sf_batches (g_file gd)).
-Proof. apply output_lists, ST_ok. Qed.
+Proof. intros Hw Hs. apply (output_lists cat ST ST_ok f gc gd Hw). now apply segment_cat_ok. Qed.
 
 Lemma c11_lists_union cat f gc gd :
   input_wf ST f = true -> forallb (cat_uniform cat) (sf_batches f) = true ->
-  segment_gen cat ST f = GOk gc gd ->
+  segment_cat cat ST f = GOk gc gd ->
   let inp := built cat (sf_batches f) in
   Permutation (ids_of (g_returns gc) ++ ids_of (g_returns gd)) (ids_of (sel (sf_batches f) (bl_ret inp))) /\
   Permutation (ids_of (g_nocs gc) ++ ids_of (g_nocs gd)) (ids_of (sel (sf_batches f) (bl_noc inp))).
-Proof. apply lists_union, ST_ok. Qed.
+Proof. intros Hw Hu Hs. apply (lists_union cat ST ST_ok f gc gd Hw Hu). now apply segment_cat_ok. Qed.
+
+(* with the category check of validation: success for every valid non-ADV file of category-uniform batches *)
+Lemma c11_succeeds_cat cat f :
+  validate_cat cat ST f = None -> is_adv_file (sf_batches f) = false ->
+  forallb (cat_uniform cat) (sf_batches f) = true ->
+  exists gc gd, segment_cat cat ST f = GOk gc gd.
+Proof. apply segment_cat_succeeds, ST_ok. Qed.
+
+(* a file without category labels: the category check is void and segment_cat is segment *)
+Lemma c11_cat_forward f : validate_cat (fun _ => CForward) ST f = validate ST f.
+Proof.
+  unfold validate_cat. destruct (is_adv_file (sf_batches f)) eqn:Ea; [reflexivity|].
+  assert (E : forall b, is_category_ok (fun _ => CForward) b = true).
+  { intros b. unfold is_category_ok. destruct (sb_entries b) as [|e0 [|e1 r]]; try reflexivity. now apply forallb_forall. }
+  assert (F : forallb (fun b => batch_ok ST b && is_category_ok (fun _ => CForward) b) (sf_batches f) = forallb (batch_ok ST) (sf_batches f)).
+  { clear Ea. induction (sf_batches f) as [|b r IH]; [reflexivity|]. cbn [forallb]. rewrite IH, E. now rewrite andb_true_r. }
+  rewrite F. destruct (forallb (batch_ok ST) (sf_batches f)) eqn:Eb; [reflexivity|].
+  unfold validate. now rewrite Ea, Eb.
+Qed.
 
 (* ---- non-vacuity --------------------------------------------------------------------------- *)
 
@@ -93,7 +112,7 @@ Definition ex_gfile : sfile :=
        [] 141 252.
 
 Example ex_gfile_hyps :
-  validate ST ex_gfile = None /\ input_wf ST ex_gfile = true /\ is_adv_file (sf_batches ex_gfile) = false
+  validate ST ex_gfile = None /\ validate_cat ex_cat ST ex_gfile = None /\ input_wf ST ex_gfile = true /\ is_adv_file (sf_batches ex_gfile) = false
   /\ forallb (cat_uniform ex_cat) (sf_batches ex_gfile) = true
   /\ forallb (is_category_ok ex_cat) (sf_batches ex_gfile) = true
   /\ bl_ret (built ex_cat (sf_batches ex_gfile)) = [1; 2]%nat /\ bl_noc (built ex_cat (sf_batches ex_gfile)) = [3]%nat.
@@ -102,7 +121,7 @@ Proof. vm_compute. repeat split; reflexivity. Qed.
 (* both outputs: batch numbers of the sources (credit 2 3 5 8, debit 1 3 5 8), ReturnEntries /
    NotificationOfChange as positions, and the entry identities they denote *)
 Example ex_gfile_segments :
-  match segment_gen ex_cat ST ex_gfile with
+  match segment_cat ex_cat ST ex_gfile with
   | GOk gc gd =>
       map sb_num (sf_batches (g_file gc)) = [2; 3; 5; 8] /\ map sb_num (sf_batches (g_file gd)) = [1; 3; 5; 8]
       /\ g_ret gc = [0; 1]%nat /\ g_noc gc = [2]%nat /\ g_ret gd = [1]%nat /\ g_noc gd = [2]%nat
@@ -133,10 +152,10 @@ Definition nu_file : sfile :=
        [ mksb false 200 1 7 5 0 [mkentry 21 5 1%N 1%N; mkentry 26 0 2%N 2%N] ] [] 5 0.
 
 Lemma lists_union_nonuniform :
-  validate ST nu_file = None /\ input_wf ST nu_file = true
+  validate_cat nu_cat ST nu_file = None /\ input_wf ST nu_file = true
   /\ forallb (is_category_ok nu_cat) (sf_batches nu_file) = true
   /\ forallb (cat_uniform nu_cat) (sf_batches nu_file) = false
-  /\ match segment_gen nu_cat ST nu_file with
+  /\ match segment_cat nu_cat ST nu_file with
      | GOk gc gd =>
          let inp := built nu_cat (sf_batches nu_file) in
          ids_of (g_returns gc) ++ ids_of (g_returns gd) = [1]%N
@@ -149,14 +168,32 @@ Proof. vm_compute. repeat split; reflexivity. Qed.
 
 Lemma lists_union_refuted :
   exists cat f gc gd,
-    validate ST f = None /\ input_wf ST f = true /\ forallb (is_category_ok cat) (sf_batches f) = true
-    /\ segment_gen cat ST f = GOk gc gd
+    validate_cat cat ST f = None /\ input_wf ST f = true /\ forallb (is_category_ok cat) (sf_batches f) = true
+    /\ segment_cat cat ST f = GOk gc gd
     /\ ~ Permutation (ids_of (g_returns gc) ++ ids_of (g_returns gd))
                      (ids_of (sel (sf_batches f) (bl_ret (built cat (sf_batches f))))).
 Proof.
-  destruct (segment_gen nu_cat ST nu_file) as [gc gd|] eqn:E; [|vm_compute in E; discriminate].
+  destruct (segment_cat nu_cat ST nu_file) as [gc gd|] eqn:E; [|vm_compute in E; discriminate].
   exists nu_cat, nu_file, gc, gd.
   pose proof lists_union_nonuniform as (H1 & H2 & H3 & _ & H5). rewrite E in H5. cbv zeta in H5.
   destruct H5 as (L1 & L2 & _). repeat split; try assumption.
   rewrite L1, L2. intros P. apply Permutation_length in P. discriminate.
 Qed.
+
+(* ---- and for success: SegmentFile fails on a valid file with hand-labelled categories -------- *)
+
+(* one mixed batch: a forward credit, a debit labelled NOC, a forward debit.  Batch.isCategory
+   takes the first entry's label (Forward) as reference and skips NOC labels: accepted.  The debit
+   half starts with the NOC-labelled entry, which makes NOC the reference: the forward debit is
+   refused ("Forward category found in batch with category NOC") and SegmentFile returns an error. *)
+Definition cs_cat (id : N) : category := if (id =? 2)%N then CNOC else CForward.
+Definition cs_file : sfile :=
+  mksf 121042882 231380104
+       [ mksb false 200 1 7 100 300 [mkentry 22 100 1%N 1%N; mkentry 27 100 2%N 2%N; mkentry 27 200 3%N 3%N] ] [] 100 300.
+
+Lemma succeeds_cat_refuted :
+  validate_cat cs_cat ST cs_file = None /\ input_wf ST cs_file = true /\ is_adv_file (sf_batches cs_file) = false
+  /\ forallb (cat_uniform cs_cat) (sf_batches cs_file) = false
+  /\ (exists cf df, segment ST cs_file = SOk cf df)
+  /\ segment_cat cs_cat ST cs_file = GErr (EOutput VBatch).
+Proof. vm_compute. repeat split; try reflexivity. eexists _, _. reflexivity. Qed.
